@@ -45,7 +45,11 @@ Frag == << <<101, 118, 97, 108, 40, 49, 41>>,                                   
            <<111, 115, 46, 115, 121, 115, 116, 101, 109, 40, 40, 34, 108, 115, 34, 41, 41>>,   \* os.system(("ls"))
            <<101, 118, 97, 108, 40, 10, 49, 41>>,                        \* eval( line break 1)   the argument list runs over a line break
            <<61, 65, 49, 43, 101, 120, 101, 99, 40, 10, 34, 120, 34, 41>>,  \* =A1+exec( line break "x")
-           <<61, 101, 120, 101, 99, 40, 49, 41, 43, 49>> >>                \* =exec(1)+1
+           <<61, 101, 120, 101, 99, 40, 49, 41, 43, 49>>,                \* =exec(1)+1
+           <<61, 76, 79, 71, 49, 48, 40, 49, 48, 48, 41>>,          \* =LOG10(100)   an Excel function whose name ends in a digit
+           <<61, 83, 85, 77, 88, 50, 77, 89, 50, 40, 65, 49, 58, 65, 50, 44, 66, 49, 58, 66, 50, 41>>,   \* =SUMX2MY2(A1:A2,B1:B2)
+           <<103, 101, 116, 88, 40, 49, 41>>,                      \* getX(1)   not an upper-case function: the name is getX
+           <<61, 67, 97, 108, 99, 50, 40, 49, 41>> >>                 \* =Calc2(1)
 GCols == 1..4
 GRows == 1..5
 Places == {<<s, c, r>> : s \in 1..2, c \in GCols, r \in GRows}
